@@ -339,13 +339,36 @@ def r8_boundary_at_exit(ctx):
                     return env["is_exit"]
                 if any(isinstance(strip(z), dict) and strip(z).get("k") == "lit" and strip(z).get("v") == "0" for z in (pp[1], pp[2])):
                     return env["first"]
-            return None
-        r1 = ev(c.get("c"), {"has_exit": True, "is_exit": True, "first": False})
-        r2 = ev(c.get("c"), {"has_exit": True, "is_exit": False, "first": True})
+            # any other condition is a free Boolean: the verdict must not depend on it
+            key = src(e)
+            env.setdefault("seen", set()).add(key)
+            return env.get("free", {}).get(key)
+
+        def all_values(base):
+            probe = dict(base)
+            ev(c.get("c"), probe)
+            names = sorted(probe.get("seen", ()))
+            if len(names) > 5:
+                return None, names
+            out = set()
+            for m in range(1 << len(names)):
+                env = dict(base)
+                env["free"] = {nm: bool((m >> i) & 1) for i, nm in enumerate(names)}
+                out.add(ev(c.get("c"), env))
+            return out, names
+        v1, free1 = all_values({"has_exit": True, "is_exit": True, "first": False})
+        v2, free2 = all_values({"has_exit": True, "is_exit": False, "first": True})
+        r1 = None if v1 is None or None in v1 else (True if v1 == {True} else False if v1 == {False} else "mixed")
+        r2 = None if v2 is None or None in v2 else (True if v2 == {True} else False if v2 == {False} else "mixed")
         if r1 is True and r2 is False:
             ctx.ok("boundary value given to m_cfg.exit()", fn, c)
         elif r1 is None or r2 is None:
             ctx.undecided("run_bwd_fixpo: cannot evaluate the boundary condition `%s`" % src(c.get("c"))[:60], fn, c)
+        elif r1 == "mixed" or (r1 is False and r2 is False):
+            ctx.bad("run_bwd_fixpo gives the boundary value to the exit block only when `%s` also holds: when it does not (an exit block "
+                    "with a successor, e.g. a function that returns from its loop header) the function outputs are dead at the end of "
+                    "every block that does not read them and the inter-procedural assertion crawler loses the `output -> {output}` seed"
+                    % "`, `".join(free1)[:120], fn, c, sig="boundary-exit-conditional")
         else:
             ctx.bad("run_bwd_fixpo gives the boundary value under `%s`, i.e. to the first block of the iteration order even when that is not "
                     "the exit block (a sink block that does not reach the exit sorts first): nothing is live at the end of the real exit "
@@ -431,3 +454,140 @@ def r10_assertion_regenerated(ctx):
 
 
 RULES += [r10_assertion_regenerated]
+
+
+def r11_assertion_fact_joined(ctx):
+    ctx.rule("C18.r11", "assertion crawler: the fact stored for an assertion at the assertion itself is the JOIN of its operands with the "
+             "fact that reaches the statement from its successors for the same assertion (inside a loop the variables that flow into "
+             "it through the back edge arrive there); a plain overwrite `set(a, uses)` loses them", floor=1)
+    fs = ctx.db.fns(CRAWL, name="process_assertion")
+    if not ctx.need(fs, "assertion_crawler process_assertion", "C18.r11"):
+        return
+    seen = set()
+    for fn in fs:
+        if fn.get("cpk") in seen:
+            continue
+        seen.add(fn.get("cpk"))
+        body = fn["body"]
+        decls = local_decls(body)
+        sets = [n for n in walk(body) if n.get("k") == "call" and callee(n) and callee(n)["name"] == "set" and n.get("o") is not None
+                and any(is_call(y, name="get_first") for y in walk(n["o"])) and len(n.get("a", [])) == 2]
+        for s in sets:
+            key, val = s["a"]
+            # every expression that flows into the stored value: the argument itself and, if it is a local, all that is written to it
+            srcs = [val]
+            v = strip_move(val)
+            if isinstance(v, dict) and v.get("k") == "ref" and v.get("rk") == "local":
+                d = decls.get(v.get("id"))
+                if d is not None and "i" in d:
+                    srcs.append(d["i"])
+                for w in writes_to(body, v["id"]):
+                    srcs.append(w)
+            # one more step of local def-use: locals mentioned there stand for their initialisers
+            for e in list(srcs):
+                for x in walk(e):
+                    if isinstance(x, dict) and x.get("k") == "ref" and x.get("rk") == "local" and x.get("id") in decls and "i" in decls[x["id"]]:
+                        srcs.append(decls[x["id"]]["i"])
+            old = [c for e in srcs for c in walk(e) if isinstance(c, dict) and c.get("k") == "call" and callee(c) and
+                   callee(c)["name"] in ("operator[]", "at", "lookup") and c.get("o") is not None and any(is_call(y, name="get_first") for y in walk(c["o"]))
+                   and c.get("a") and same_expr(strip(c["a"][0]), strip(key))]
+            if old:
+                ctx.ok("set(a, uses | first[a]): the incoming fact of the same assertion is kept", fn, s)
+            else:
+                ctx.bad("assertion crawler: process_assertion OVERWRITES the fact of the assertion with its own operands: in "
+                        "`body: assert(x >= 1); x := y; goto head` the variable y reaches the assertion through the back edge, arrives at "
+                        "the assertion from its successors and is dropped there - {x} is reported at every block instead of {x, y}",
+                        fn, s, sig="assertion-fact-overwritten")
+        if not sets:
+            ctx.undecided("process_assertion: no `first.set(assertion, fact)` found", fn, body)
+
+
+RULES += [r11_assertion_fact_joined]
+
+
+def r12_simultaneous_rename(ctx):
+    ctx.rule("C18.r12", "renaming the variables of a dependence set (caller/callee names at a call site) is SIMULTANEOUS: no new name is added "
+             "to the set while memberships of old names are still being tested, otherwise swapped names (`first(p,q)` called as "
+             "`first(q,p)`) are renamed twice and the assertion is reported to depend on the wrong variable", floor=2)
+    DD = "include/crab/domains/discrete_domains.hpp"
+    fs = [f for f in ctx.db.fns(DD, name="rename") if len(f.get("params", [])) == 2 and f.get("body")]
+    if not ctx.need(fs, "discrete_domain / set_domain rename", "C18.r12"):
+        return
+    seen = set()
+    for fn in fs:
+        if fn.get("cpk") in seen:
+            continue
+        seen.add(fn.get("cpk"))
+        body = fn["body"]
+        uses_param = lambda e, idx: any(is_param(x, fn, idx) for x in walk(e) if isinstance(x, dict) and x.get("k") == "ref")
+        bad = None
+        tests = 0
+        for l in [x for x in walk(body) if x.get("k") in ("for", "rangefor", "while")]:
+            lb = l.get("b")
+            test = [c for c in walk(lb) if c.get("k") == "call" and callee(c) and callee(c)["name"] in ("contain", "count", "find", "contains")
+                    and any(uses_param(a, 0) for a in c.get("a", []))]
+            ins = [c for c in walk(lb) if c.get("k") == "call" and callee(c) and callee(c)["name"] in ("operator+=", "insert", "emplace", "add")
+                   and ("o" not in c or is_this(strip(c.get("o"))) or is_field(strip(c.get("o"))))
+                   and any(uses_param(a, 1) for a in c.get("a", []))]
+            tests += len(test)
+            if test and ins:
+                bad = ins[0]
+        if bad is not None:
+            ctx.bad("%s::rename adds to[i] to the set inside the loop that tests the membership of from[i]: with from = [p,q], to = [q,p] the "
+                    "set {p} becomes {q} and then {p} again" % fn["cpk"], fn, bad, sig="rename-sequential:%s" % fn["cpk"].split("::")[-1])
+        elif tests:
+            ctx.ok("%s::rename: memberships are tested before any new name is added" % fn["cpk"].split("::")[-1], fn, body)
+        else:
+            ctx.undecided("%s::rename: no membership test of the old names found" % fn["cpk"], fn, body)
+
+
+RULES += [r12_simultaneous_rename]
+
+
+def r13_per_statement_replay(ctx):
+    ctx.rule("C18.r13", "assertion crawler, per-statement results: the backward replay of the statements of a block starts from the facts at "
+             "the EXIT of the block (the table filled from the solver's OUT map), not from the facts at its entry", floor=1)
+    fs = [f for f in ctx.db.fns(CRAWL, name="get_results") if len(f.get("params", [])) == 2 and f.get("body")
+          and any(x.get("k") == "rangefor" or x.get("k") == "for" for x in walk(f["body"]))]
+    ex = [f for f in ctx.db.fns(CRAWL, name="exec") if f.get("body")]
+    if not ctx.need(fs, "assertion_crawler::get_results(block, map)", "C18.r13") or not ctx.need(ex, "assertion_crawler::exec", "C18.r13"):
+        return
+    # which table is filled from which side of the solver
+    filled = {}
+    for l in [x for x in walk(ex[0]["body"]) if x.get("k") == "rangefor"]:
+        side_ = "out" if any(is_call(c, name=("out_begin", "out_end")) for c in walk(l.get("r"))) else \
+                "in" if any(is_call(c, name=("in_begin", "in_end")) for c in walk(l.get("r"))) else None
+        for c in walk(l.get("b")):
+            if is_call(c, name=("insert", "emplace")) and is_field(strip(c.get("o"))):
+                filled[strip(c["o"]).get("n")] = side_
+    seen = set()
+    for fn in fs:
+        if fn.get("cpk") in seen:
+            continue
+        seen.add(fn.get("cpk"))
+        body = fn["body"]
+        decls = local_decls(body)
+        vis = [d for d in decls.values() if "transfer_function" in (d.get("t") or d.get("T") or "") or (d.get("n") == "vis")]
+        vis = [d for d in vis if isinstance(strip(d.get("i")), dict) and strip(d["i"]).get("a")]
+        if not vis:
+            ctx.undecided("get_results(block, map): the transfer function of the replay was not found", fn, body)
+            continue
+        seed = strip(strip(vis[0]["i"])["a"][0])
+        flds = []
+        for x in walk(seed):
+            if isinstance(x, dict) and x.get("k") == "ref" and x.get("rk") == "local":
+                r = resolve_local(body, x, decls)
+                flds += [strip(c["o"]).get("n") for c in walk(r) if is_call(c, name=("find", "at", "operator[]")) and is_field(strip(c.get("o")))]
+        flds += [strip(c["o"]).get("n") for c in walk(seed) if is_call(c, name=("find", "at", "operator[]")) and is_field(strip(c.get("o")))]
+        sides = {filled.get(f) for f in flds}
+        if sides == {"out"}:
+            ctx.ok("the replay starts from %s (filled from the OUT map)" % flds[0], fn, vis[0])
+        elif "in" in sides:
+            ctx.bad("assertion_crawler::get_results(block, map) replays the statements of the block backwards starting from `%s`, the facts at "
+                    "the ENTRY of the block: for b1: y := z; x := y; assert(x >= 1) the pre-state of `x := y` is reported as {z} "
+                    "instead of {y}" % [f for f in flds if filled.get(f) == "in"][0], fn, vis[0], sig="per-stmt-replay-from-entry")
+        else:
+            ctx.undecided("get_results(block, map): cannot tell which table `%s` seeds the replay" % src(seed)[:40], fn, vis[0])
+
+
+RULES += [r13_per_statement_replay]
